@@ -281,7 +281,7 @@ Proof. induction 1; cbn; congruence. Qed.
 Lemma expand_wire_chunk p : pchunk_valid p -> expand_wire (wire_chunk p) = pexpand p.
 Proof.
   destruct p as [s n|l|l]; cbn [pchunk_valid wire_chunk pexpand expand_wire].
-  - intros ([-> | [-> | ->]] & Hn); rewrite Z.mod_small by lia; reflexivity.
+  - intros ([-> | [-> | ->]] & Hn); rewrite (Z.mod_small n) by lia; reflexivity.
   - intros (Hb & _). rewrite map_id_on; [reflexivity|].
     eapply Forall_impl; [|exact Hb]. intros a [-> | ->]; reflexivity.
   - intros (Hb & _). rewrite map_id_on; [reflexivity|].
@@ -296,7 +296,103 @@ Lemma round250_within d : Z.abs (d - round250 d * 250) <= 125.
 Proof.
   unfold round250. destruct (d >=? 0) eqn:E.
   - lia.
-  - assert (Hq := Z.quot_rem' (d - 125) 250).
-    assert (Hr := Z.rem_bound_neg (d - 125) 250 ltac:(lia) ltac:(lia)).
-    lia.
+  - assert (Hq : Z.quot (d - 125) 250 = - ((125 - d) / 250)).
+    { replace (d - 125) with (- (125 - d)) by lia.
+      rewrite Z.quot_opp_l by lia. rewrite Z.quot_div_nonneg by lia. reflexivity. }
+    rewrite Hq. lia.
+Qed.
+
+(* ------------------------------------------------------------------ *)
+(* every emitted chunk is valid on the wire                            *)
+(* ------------------------------------------------------------------ *)
+Lemma has_large_false l : syms_ok l -> has_large l = false -> Forall (fun d => d = 0 \/ d = 1) l.
+Proof.
+  induction 1 as [|x tl Hx _ IH]; intros H; [constructor|].
+  unfold has_large in H. cbn [existsb] in H. apply orb_false_elim in H as [Hx2 H].
+  constructor; [|apply IH, H]. destruct Hx as [-> | [-> | ->]]; auto; discriminate.
+Qed.
+
+Lemma syms_ok_split n l : syms_ok l -> syms_ok (firstn n l) /\ syms_ok (skipn n l).
+Proof. intros H. rewrite <- (firstn_skipn n l) in H. apply Forall_app in H. exact H. Qed.
+
+Lemma syms_ok_repeat s n : is_sym s -> syms_ok (repeat s n).
+Proof. intros H. induction n; cbn; constructor; auto. Qed.
+
+Lemma encode_valid c :
+  chunk_wf c -> enc_inv c -> syms_ok (pend c) -> 0 < c_n c ->
+  pchunk_valid (fst (chunk_encode c)) /\ syms_ok (pend (snd (chunk_encode c))).
+Proof.
+  intros Hwf Henc Hs Hpos. pose proof Hwf as (Hn & Hf & Hl & Hd).
+  unfold chunk_encode. destruct (c_diff c) eqn:Ediff; cbn [negb].
+  - destruct (c_n c =? 14) eqn:E14; cbn [fst snd pchunk_valid].
+    + fold (pend c). split; [|constructor]. split; [|lia].
+      apply has_large_false; auto.
+      destruct Henc as [H|[[_ H]|[_ H]]]; try lia; congruence.
+    + fold (pend c). rewrite pend_of_list. destruct (syms_ok_split (Z.to_nat (Z.min 7 (c_n c))) _ Hs) as [H1 H2].
+      split; [|exact H2]. split; [exact H1|]. rewrite firstn_length. lia.
+  - cbn [fst snd pchunk_valid]. split; [|constructor]. split.
+    + rewrite Hf. destruct (pend c) as [|x tl]; [cbn [length] in Hn; lia|]. inversion Hs; auto.
+    + destruct Henc as [H|[[H _]|[H _]]]; lia.
+Qed.
+
+(* packer invariant extended with validity *)
+Definition pack_valid (st : list pchunk * chunk) : Prop :=
+  Forall pchunk_valid (fst st) /\ syms_ok (pend (snd st)).
+
+Lemma syms_ok_snoc l d : syms_ok l -> is_sym d -> syms_ok (l ++ [d]).
+Proof. intros. apply Forall_app. split; auto. Qed.
+
+Lemma push_sym_valid st fed d : is_sym d -> pack_inv st fed -> pack_valid st -> pack_valid (push_sym st d).
+Proof.
+  destruct st as [chs c]. intros Hd (Hwf & Henc & Hfed) (Hv & Hs). cbn [fst snd] in *. unfold push_sym.
+  destruct (can_add c d) eqn:Hcan.
+  - split; cbn [fst snd]; [exact Hv|]. rewrite pend_add. apply syms_ok_snoc; auto.
+  - assert (0 < c_n c). { unfold can_add in Hcan. destruct (c_n c <? 7) eqn:E; [discriminate|lia]. }
+    pose proof (encode_valid c Hwf Henc Hs H) as [H1 H2].
+    destruct (chunk_encode c) as [p c']. cbn [fst snd] in *. split; cbn [fst snd].
+    + apply Forall_app. split; auto.
+    + rewrite pend_add. apply syms_ok_snoc; auto.
+Qed.
+
+Lemma feed_valid syms : forall st fed, syms_ok syms -> pack_inv st fed -> pack_valid st -> pack_valid (feed st syms).
+Proof.
+  induction syms as [|d tl IH]; intros st fed Hs Hinv Hv; cbn [feed fold_left]; [exact Hv|].
+  inversion Hs; subst. apply (IH _ (fed ++ [d])); auto.
+  - apply push_sym_inv; auto.
+  - eapply push_sym_valid; eauto.
+Qed.
+
+Lemma drain_valid fuel : forall chs c fed,
+  pack_inv (chs, c) fed -> pack_valid (chs, c) -> Forall pchunk_valid (drain fuel chs c).
+Proof.
+  induction fuel as [|fuel IH]; intros chs c fed (Hwf & Henc & Hfed) (Hv & Hs); cbn [fst snd] in *; cbn [drain]; [exact Hv|].
+  destruct (c_n c >? 0) eqn:Epos; [|exact Hv].
+  pose proof (encode_valid c Hwf Henc Hs ltac:(lia)) as [H1 H2].
+  pose proof (encode_drain c Hwf Henc ltac:(lia)) as HE.
+  destruct (chunk_encode c) as [p c']. cbn [fst snd] in *. destruct HE as (Hwf' & Henc' & _ & _).
+  apply (IH _ _ (pexpand_all (chs ++ [p]) ++ pend c')).
+  - split; [auto|]. split; [auto|reflexivity].
+  - split; cbn [fst snd]; [apply Forall_app; split; auto|auto].
+Qed.
+
+Definition statuses_wire (chs : list (Z * list Z)) : list Z := flat_map expand_wire chs.
+
+Lemma statuses_wire_valid chs : Forall pchunk_valid chs -> statuses_wire (map wire_chunk chs) = pexpand_all chs.
+Proof.
+  induction 1 as [|p tl Hp _ IH]; [reflexivity|].
+  unfold statuses_wire, pexpand_all in *. cbn [map flat_map]. rewrite IH, expand_wire_chunk by auto. reflexivity.
+Qed.
+
+(* chunk_roundtrip at the wire: what a receiver expands from the parsed chunks *)
+Theorem chunk_roundtrip_wire syms : syms_ok syms ->
+  Forall pchunk_valid (pack_all syms) /\
+  exists k, (k < 7)%nat /\ statuses_wire (map wire_chunk (pack_all syms)) = syms ++ repeat 0 k.
+Proof.
+  intros Hs.
+  assert (Hv : Forall pchunk_valid (pack_all syms)).
+  { unfold pack_all.
+    pose proof (feed_inv syms ([], chunk_empty) [] Hs pack_inv_init) as Hinv.
+    pose proof (feed_valid syms ([], chunk_empty) [] Hs pack_inv_init (conj (Forall_nil _) (Forall_nil _))) as Hval.
+    destruct (feed ([], chunk_empty) syms) as [chs c]. eapply drain_valid; eauto. }
+  split; [exact Hv|]. rewrite statuses_wire_valid by exact Hv. apply chunk_roundtrip, Hs.
 Qed.
